@@ -1,6 +1,7 @@
 package mon
 
 import (
+	"errors"
 	"bytes"
 	"fmt"
 
@@ -369,6 +370,30 @@ func runC03(c *core.Ctx) {
 			c.Shape("repaired-frame", up, mp.FPort == nil)
 		}
 
+		// ---- payload items the caller defined and that cannot be serialised (MarshalBinary returns an error,
+		// or panics as a typed nil pointer does): the method may fail, it may even let the panic through,
+		// but it does not report success on a frame whose payload it could not read
+		if i%16 == 7 {
+			for _, kind := range []string{"error", "panic", "typed-nil"} {
+				phy := frameOf(up, nil, 1+r.Intn(200), nil)
+				mp := phy.MACPayload.(*lorawan.MACPayload)
+				head := r.Bytes(1 + r.Intn(20))
+				var bad lorawan.Payload = &brokenPayload{panics: kind == "panic"}
+				if kind == "typed-nil" {
+					bad = (*lorawan.DataPayload)(nil)
+				}
+				mp.FRMPayload = []lorawan.Payload{&lorawan.DataPayload{Bytes: append([]byte{}, head...)}, bad}
+				var err error
+				c.Eval(1)
+				p, _ := core.Guard(func() { err = phy.EncryptFRMPayload(lorawan.AES128Key(key)) })
+				if !p && err == nil {
+					got, _ := payloadBytes(mp.FRMPayload)
+					c.Violate("C03|method|EncryptFRMPayload|success-on-unreadable-payload|"+kind, "EncryptFRMPayload reports success although one payload item cannot be serialised (%s); the frame now carries %x (it held %x plus the unreadable item)", kind, got, head)
+				}
+				c.Shape("unreadable-item", kind, up)
+			}
+		}
+
 		// ---- over-long FOpts: transform or error, never silent success
 		if i%4 == 0 {
 			ln := 16 + r.Intn(25)
@@ -398,3 +423,15 @@ func runC03(c *core.Ctx) {
 		}
 	}
 }
+
+
+// brokenPayload is a caller-defined Payload whose MarshalBinary fails.
+type brokenPayload struct{ panics bool }
+
+func (p *brokenPayload) MarshalBinary() ([]byte, error) {
+	if p.panics {
+		panic("brokenPayload.MarshalBinary")
+	}
+	return nil, errors.New("brokenPayload: cannot be serialised")
+}
+func (p *brokenPayload) UnmarshalBinary(uplink bool, data []byte) error { return nil }
